@@ -25,13 +25,29 @@ fn fixtures() {
 
 fn main() {
     let argv: Vec<String> = std::env::args().collect();
-    if argv.len() < 3 && !(argv.len() >= 2 && (argv[1] == "fixtures" || argv[1] == "oracle-server")) {
+    if argv.len() < 3 && !(argv.len() >= 2 && (argv[1] == "fixtures" || argv[1] == "oracle-server" || argv[1] == "stress" || argv[1] == "fuzz-replay")) {
         eprintln!("usage: vcheck <Cxx> <quick|thorough> [--replay FILE]");
         std::process::exit(2);
     }
     if argv[1] == "fixtures" {
         fixtures();
         return;
+    }
+    if argv[1] == "fuzz-replay" {
+        // vcheck fuzz-replay <target> <file>: run one saved libFuzzer input through the deterministic oracle
+        sudachi_verif::engine::install_panic_hook();
+        let data = std::fs::read(&argv[3]).expect("read input");
+        match sudachi_verif::fuzz::run_target(&argv[2], &data) {
+            Ok(()) => {
+                println!("FUZZ-REPLAY PASS target={} file={}", argv[2], argv[3]);
+                std::process::exit(0);
+            }
+            Err(f) => {
+                println!("FAIL clause={} detail={}", f.clause, sudachi_verif::driver::truncate(&f.detail, 600));
+                println!("VIOLATION property={} replay={}", sudachi_verif::fuzz::target_property(&argv[2]), argv[3]);
+                std::process::exit(1);
+            }
+        }
     }
     if argv[1] == "stress" {
         std::process::exit(props::c18::stress_main(&argv[2..]));
